@@ -492,6 +492,7 @@ func runC12(c *Ctx) {
 	runC12Sanitize(c)
 	runC12Round4(c)
 	runC12PtrString(c)
+	runC12Shares5(c)
 }
 
 func guardedNilValue(b *ssa.BasicBlock, v ssa.Value) bool {
